@@ -98,6 +98,8 @@ static long n_log_calls, n_deliveries, n_model_judged, n_meta_compared, n_filter
 /* execute OPS (skipping .skip); pretouch: create every call site before the first op.
  * returns index of the first op at which the model oracle failed, or -1 */
 static int model_fail_kind;   /* 1 unexpected delivery, 2 missing delivery, 3 duplicate, 4 wrong tags */
+static int ballast, max_slot_seen; static long n_ballast_cases;
+static void ballast_logger(int32_t t, struct qb_log_callsite *cs, struct timespec *ts, const char *msg) { (void)t; (void)cs; (void)ts; (void)msg; vp_violation("route:delivered-to-a-target-that-was-never-enabled", "slot %d", t); }
 static int run_history(int run, int pretouch, int judge_model)
 {
 	int fail_at = -1;
@@ -110,6 +112,9 @@ static int run_history(int run, int pretouch, int judge_model)
 	qb_log_init("vp-route", LOG_USER, LOG_EMERG);
 	qb_log_ctl(QB_LOG_SYSLOG, QB_LOG_CONF_ENABLED, QB_FALSE);
 	qb_log_filter_ctl(QB_LOG_SYSLOG, QB_LOG_FILTER_CLEAR_ALL, QB_LOG_FILTER_FILE, "*", LOG_TRACE);
+	/* in some cases the lower slots are taken by targets that stay closed off (never enabled, no filter), so that the
+	 * targets of the history live in the highest slots there are */
+	for (int bsl = 0; bsl < ballast; bsl++) { int bs = qb_log_custom_open(ballast_logger, NULL, NULL, NULL); if (bs > max_slot_seen) max_slot_seen = bs; }
 	if (pretouch)
 		for (int i = 0; i < nsites; i++) { (void)qb_log_callsite_get(S[i].func, S[i].file, S[i].fmt, (uint8_t)S[i].prio, (uint32_t)S[i].line, 0); born[i] = 1; }
 	for (int oi = 0; oi < nops; oi++) {
@@ -122,6 +127,7 @@ static int run_history(int run, int pretouch, int judge_model)
 			if (mt->open) break;
 			mt->slot = qb_log_custom_open(logger, NULL, NULL, NULL);
 			if (mt->slot < 0) break;
+			if (mt->slot > max_slot_seen) max_slot_seen = mt->slot;
 			if (slot_used_before[mt->slot]) feat_slot_reuse = 1;
 			slot_used_before[mt->slot] = 1;
 			mt->open = 1; mt->enabled = 0; mt->nf = 0; slot2logical[mt->slot] = o->target;
@@ -360,6 +366,7 @@ static void run_case(long kase)
 {
 	vprng_t r; vp_seed(&r, vp.seed, (uint64_t)kase);
 	gen_case(&r);
+	ballast = vp_chance(&r, 1, 6) ? 28 - NT : 0; if (ballast < 0) ballast = 0; if (ballast) n_ballast_cases++;
 	char fb[200], hist[1500];
 	int f1 = run_history(0, 0, 1);
 	int had_overlap = feat_remove_overlap, had_tags = ntagf || feat_tag_clear;
@@ -419,7 +426,7 @@ int main(int argc, char **argv)
 {
 	vp_init(argc, argv);
 	for (long k = vp.case_from; k < vp.case_to; k++) { vp_begin_case(k); run_case(k); }
-	vp_count("log_calls", n_log_calls); vp_count("deliveries", n_deliveries); vp_count("calls_judged_by_model", n_model_judged);
+	vp_count("cases_with_all_dynamic_slots_in_use", n_ballast_cases); vp_max("highest_target_slot_used", max_slot_seen); vp_count("log_calls", n_log_calls); vp_count("deliveries", n_deliveries); vp_count("calls_judged_by_model", n_model_judged);
 	vp_count("histories_compared_old_vs_new_sites", n_meta_compared); vp_count("filter_and_tag_ops", n_filter_ops); vp_count("shrinks", n_shrinks); vp_count("overlap_free_variants_judged", n_sanitised);
 	vp_finish();
 	return 0;
